@@ -51,6 +51,9 @@ def gen(ctx):
     for frag in ("StorageNode.select().where(StorageNode.host == host, StorageNode.active == True)", "host = util.get_hostname()", "if not node.check_init():\n                del nodes[name]"):
         if frag not in loop:
             raise T.Untranslatable(f"UNTRANSLATABLE: update_loop no longer contains `{frag}`")
+    gh = T.strip_doc(T.find_func(T.parse(core.REPO / "alpenhorn/common/util.py"), "get_hostname").body)
+    if [ast.unparse(x) for x in gh] != ["if config.config is not None and 'hostname' in config.config.get('base', {}):\n    return config.config['base']['hostname']", "return socket.gethostname().split('.')[0]"]:
+        raise T.Untranslatable(f"UNTRANSLATABLE: util.get_hostname no longer returns the configured name unchanged (else the machine's first label): {[ast.unparse(x) for x in gh]}")
     loc = ast.unparse(T.find_func(T.parse(core.REPO / "alpenhorn/db/storage.py"), "StorageNode.local"))
     if "return self.host == util.get_hostname()" not in loc:
         raise T.Untranslatable("UNTRANSLATABLE: StorageNode.local changed")
@@ -94,7 +97,8 @@ def gen_table(rng):
             content = None
         nodes.append({"name": name, "host": rng.choice(["h1", "h1", "h2", "H1", "h1.example.org"]), "active": rng.random() < 0.8, "marker": mk, "content": content,
                       "init_req": rng.random() < 0.5, "init_done": rng.random() < 0.35})
-    return {"host": "h1", "nodes": nodes}
+    # the daemon's own (configured) host name is compared as a whole: a dotted name is not its first label
+    return {"host": rng.choice(["h1", "h1", "h1.example.org", "H1"]), "nodes": nodes}
 
 
 def read_marker(root):
